@@ -7,6 +7,7 @@ package dtlcp
 // private keys are counting wrappers supplied through the public Config.
 
 import (
+	"time"
 	"bytes"
 	"crypto"
 	"crypto/rand"
@@ -68,6 +69,9 @@ type c18Hello struct {
 	// SIDEst: the hello carries the session identifier of a session this server has in its cache
 	// (the case is primed with one completed handshake)
 	SIDEst bool `json:"sid_est,omitempty"`
+	// Silent: after this hello has been answered with a HelloVerifyRequest the client says nothing for
+	// 64 s (four of the server's retransmission timeouts); nothing further may arrive (ends the connection)
+	Silent bool `json:"silent,omitempty"`
 	FlipPos int    `json:"flippos"`
 	FlipMask byte  `json:"flipmask"`
 }
@@ -258,6 +262,26 @@ func c18Run(c c18Case) (sig, msg string, nontrivial bool) {
 					if atomic.LoadInt64(&keyOps) != 0 {
 						fail("key-operation-before-cookie", "%d private-key operations before a valid cookie was received", atomic.LoadInt64(&keyOps))
 					}
+					if h.Silent {
+						pc.pconn.SetReadDeadline(time.Now().Add(64 * time.Second))
+						buf := make([]byte, 4096)
+						if n, _, rerr := pc.pconn.ReadFrom(buf); rerr == nil {
+							fail("unsolicited-datagram", "the client sent one cookieless hello and then nothing; besides the HelloVerifyRequest the server sent another datagram (%d bytes: %s)", n, vfSummarize(buf[:n]))
+						}
+						pc.pconn.SetReadDeadline(time.Time{})
+						sim.mu.Lock()
+						extra := 0
+						for _, sd := range sim.sent[before:] {
+							if sd.From != 0 {
+								extra++
+							}
+						}
+						sim.mu.Unlock()
+						if extra != 1 {
+							fail("unsolicited-datagram", "one cookieless hello drew %d datagrams from the server over 64 s of silence", extra)
+						}
+						return nil
+					}
 					last = append([]byte(nil), m.cookie...)
 					connCookies = append(connCookies, last)
 					prevCookies = append(prevCookies, last)
@@ -406,6 +430,14 @@ func c18Catalogue(suite uint16) []c18Case {
 	offerOther := est
 	offerOther.Suites = []uint16{0xe0ff}
 	out = append(out, c18Case{Suite: suite, Prime: true, Conns: []c18Conn{{Addr: "203.0.113.7:4444", Secret: 1, Hellos: []c18Hello{offerOther}}}})
+	// one cookieless (or wrongly cookied) hello, then silence
+	sil := b
+	sil.Silent = true
+	add(c18Conn{Addr: "10.0.0.1:1000", Secret: 1, Hellos: []c18Hello{sil}})
+	add(c18Conn{Addr: "10.0.0.1:1000", Secret: 0, Hellos: []c18Hello{b, sil}})
+	silr := echo
+	silr.Cookie, silr.Silent = "random", true
+	add(c18Conn{Addr: "10.0.0.1:1000", Secret: 1, Hellos: []c18Hello{b, silr}})
 	// random cookie
 	rc := echo
 	rc.Cookie = "random"
@@ -414,7 +446,7 @@ func c18Catalogue(suite uint16) []c18Case {
 }
 
 func TestVF_C18(t *testing.T) {
-	rec := vfRec("C18", "C18-cookie", "a scripted client sends ClientHello sequences on one or several server connections (source address, configured secret A/B or none): cookieless hellos, a valid cookie followed by a change of each covered field, every cookie byte x 3 masks, every proper prefix of the cookie, the cookie plus one byte, all 256 one-byte cookies, cookies replayed across addresses, secrets and connections, cookieless hellos naming a session the server has cached, the split-shift pair whose address||parameters concatenations coincide; rapid variants; the server's keys are counting wrappers; oracle: before a valid cookie exactly one HelloVerifyRequest datagram per hello, not larger than the request, zero private-key operations, no ServerHello; a cookie is valid only for exactly the address, parameters and secret it was issued for; without a configured secret every connection has its own; non-trivial = a hello carrying a cookie; distinct = the case")
+	rec := vfRec("C18", "C18-cookie", "a scripted client sends ClientHello sequences on one or several server connections (source address, configured secret A/B or none): cookieless hellos, a valid cookie followed by a change of each covered field, every cookie byte x 3 masks, every proper prefix of the cookie, the cookie plus one byte, all 256 one-byte cookies, cookies replayed across addresses, secrets and connections, cookieless hellos naming a session the server has cached, a hello followed by 64 s of silence (nothing but the one HelloVerifyRequest may arrive), the split-shift pair whose address||parameters concatenations coincide; rapid variants; the server's keys are counting wrappers; oracle: before a valid cookie exactly one HelloVerifyRequest datagram per hello, not larger than the request, zero private-key operations, no ServerHello; a cookie is valid only for exactly the address, parameters and secret it was issued for; without a configured secret every connection has its own; non-trivial = a hello carrying a cookie; distinct = the case")
 	idx := 0
 	for _, suite := range []uint16{ECC_SM4_GCM_SM3, ECDHE_SM4_GCM_SM3} {
 		for _, c := range c18Catalogue(suite) {
@@ -456,6 +488,7 @@ func TestVF_C18(t *testing.T) {
 				h.Cookie = rapid.SampledFrom([]string{"none", "echo", "echo", "flip", "prev", "random", "trunc", "byte", "extend"}).Draw(t, "cookie")
 				h.FlipPos = rapid.IntRange(0, 40).Draw(t, "pos")
 				h.FlipMask = byte(rapid.IntRange(1, 255).Draw(t, "mask"))
+				h.Silent = j == nh-1 && rapid.IntRange(0, 3).Draw(t, "silent") == 0
 				cn.Hellos = append(cn.Hellos, h)
 			}
 			c.Conns = append(c.Conns, cn)
